@@ -438,7 +438,21 @@ class Check:
                 return self.oracle(case)
         except CaseTimeout as e:
             return 'the library call did not return: %s' % e
-        except Exception as e:  # an oracle crash is a harness bug, never a violation
+        except Exception as e:
+            # an exception that escapes the oracle: if the innermost frame that belongs to the library or to the harness is a library
+            # frame, a public call made by the oracle raised where the property's statement expects a result - that is reported with
+            # the case as the failing input; if it is a harness frame it is a harness bug, never a violation (counted in the evidence)
+            import traceback
+            where = None
+            for fr in reversed(traceback.extract_tb(e.__traceback__)):
+                fn = os.path.realpath(fr.filename)
+                if fn.startswith(str(REPO) + os.sep):
+                    where = '%s:%d' % (os.path.relpath(fn, str(REPO)), fr.lineno)
+                    break
+                if fn.startswith(str(VERIF) + os.sep):
+                    break
+            if where:
+                return 'a library call made while checking this case raised %s (%s) at %s' % (type(e).__name__, str(e)[:120], where)
             self.stats['oracle_crashes'] = self.stats.get('oracle_crashes', 0) + 1
             self.stats.setdefault('oracle_crash_sample', repr(e)[:300])
             return None
